@@ -46,7 +46,9 @@ try:
         rc, out = sh("go build ./... 2>&1 | tail -3 && go test -vet=off -count=1 ./... 2>&1 | tail -2", cwd=wt)
         meta["patched_original_tests"] = "ok" if re.search(r"^ok", out, re.M) and "FAIL" not in out else "FAIL: " + out[-300:]
         shutil.copy(demo, os.path.join(wt, "zz_demo_test.go"))
-        rc, out = sh("go test -vet=off -count=1 -run 'Demo' . 2>&1 | tail -6", cwd=wt)
+        # run exactly the tests the demonstration file declares
+        names = re.findall(r"^func (Test\w+)\(", open(os.path.join(wt, "zz_demo_test.go")).read(), re.M) or ["Demo"]
+        rc, out = sh("go test -vet=off -count=1 -run '^(%s)$' . 2>&1 | tail -6" % "|".join(names), cwd=wt)
         meta["patched_demo"] = "fails (as required)" if ("FAIL" in out or "panic" in out or "fatal error" in out) else "PASSES?! " + out[-200:]
         os.remove(os.path.join(wt, "zz_demo_test.go"))
         results = {}
